@@ -1,27 +1,33 @@
 use plonky2::field::goldilocks_field::GoldilocksField as F;
-use plonky2::field::polynomial::PolynomialCoeffs;
-use plonky2::field::types::Field;
+use plonky2::gates::noop::NoopGate;
+use plonky2::plonk::circuit_builder::CircuitBuilder;
+use plonky2::plonk::circuit_data::CircuitConfig;
+use plonky2::plonk::config::PoseidonGoldilocksConfig;
+type C = PoseidonGoldilocksConfig;
 fn main() {
-    let a = PolynomialCoeffs::new(vec![F::ZERO, F::ZERO, F::ZERO, F::ONE]); // x^3
-    let b = PolynomialCoeffs::new(vec![F::ZERO, F::ONE]); // x
-    let (q, r) = a.div_rem(&b);
-    println!("x^3 / x: q={:?} r={:?}", q.coeffs, r.coeffs);
-    let (q, r) = a.div_rem_long_division(&b);
-    println!("long: q={:?} r={:?}", q.coeffs, r.coeffs);
-    let a = PolynomialCoeffs::new(vec![F::ONE, F::ZERO, F::ZERO, F::ONE, F::from_canonical_u64(5)]); // 5x^4 + x^3+1
-    let b = PolynomialCoeffs::new(vec![F::ONE, F::ONE]); // x+1
-    let (q, r) = a.div_rem(&b);
-    println!("q={:?} r={:?}", q.coeffs, r.coeffs);
-    let (q, r) = a.div_rem_long_division(&b);
-    println!("long: q={:?} r={:?}", q.coeffs, r.coeffs);
-    // x^4 / x^2
-    let a = PolynomialCoeffs::new(vec![F::ZERO, F::ZERO, F::ZERO,F::ZERO, F::ONE]);
-    let b = PolynomialCoeffs::new(vec![F::ZERO, F::ZERO, F::ONE]);
-    let (q, r) = a.div_rem(&b);
-    println!("x^4/x^2 q={:?} r={:?}", q.coeffs, r.coeffs);
-    // (x^2)(x+1) = x^3 + x^2 divided by (x+1): quotient x^2 has zero low coeffs
-    let a = PolynomialCoeffs::new(vec![F::ZERO, F::ZERO, F::ONE, F::ONE]);
-    let b = PolynomialCoeffs::new(vec![F::ONE, F::ONE]);
-    let (q, r) = a.div_rem(&b);
-    println!("(x^3+x^2)/(x+1) q={:?} r={:?}", q.coeffs, r.coeffs);
+    let mut config = CircuitConfig::standard_recursion_config();
+    config.fri_config.num_query_rounds = 8;
+    config.fri_config.proof_of_work_bits = 4;
+    config.security_bits = 28;
+    config.fri_config.reduction_strategy = plonky2::fri::reduction_strategies::FriReductionStrategy::ConstantArityBits(2, 1);
+    let mut b = CircuitBuilder::<F, 2>::new(config.clone());
+    let t = b.add_virtual_target();
+    b.register_public_input(t);
+    let mut x = b.square(t);
+    for _ in 0..10 { x = b.square(x); }
+    let data = b.build::<C>();
+    let common = data.common.clone();
+    // replicate dummy_circuit
+    let degree = common.degree();
+    let num_noop_gate = degree - common.num_public_inputs.div_ceil(8) - 2;
+    let mut builder = CircuitBuilder::<F, 2>::new(common.config.clone());
+    for _ in 0..num_noop_gate { builder.add_gate(NoopGate, vec![]); }
+    for gate in &common.gates { builder.add_gate_to_gate_set(gate.clone()); }
+    for _ in 0..common.num_public_inputs { builder.add_virtual_public_input(); }
+    let c2 = builder.build::<C>().common;
+    println!("deg {} vs {}", common.degree_bits(), c2.degree_bits());
+    println!("gates {:?}\n vs   {:?}", common.gates.iter().map(|g| g.0.id()).collect::<Vec<_>>(), c2.gates.iter().map(|g| g.0.id()).collect::<Vec<_>>());
+    println!("selectors {:?} vs {:?}", common.selectors_info, c2.selectors_info);
+    println!("qdf {} {} nconst {} {} ngc {} {} npp {} {} fri {:?} {:?}", common.quotient_degree_factor, c2.quotient_degree_factor, common.num_constants, c2.num_constants, common.num_gate_constraints, c2.num_gate_constraints, common.num_partial_products, c2.num_partial_products, common.fri_params, c2.fri_params);
+    println!("equal: {}", common == c2);
 }
